@@ -24,7 +24,8 @@ pub use crate::types::{ActiveChain, SyncShared};
 pub use crate::types::{InflightBlocks, InflightState, VerifInflightDump};
 #[cfg(feature = "verif-hooks")]
 pub use crate::relayer::{
-    ReconstructionResult, verif_block_transactions_verify, verif_compact_block_verify,
+    ReconstructionResult, verif_block_transactions_verify, verif_block_uncles_verify,
+    verif_compact_block_verify,
 };
 use ckb_constant::sync::MAX_BLOCKS_IN_TRANSIT_PER_PEER;
 
